@@ -18,7 +18,7 @@ RULE = ("Same data-first models and methods as C06 (objective constants, both se
         "s[var], s['name'], s.get(), s[vector] (also slices and reversed views) and s[matrix] (also transposed) "
         "must return the right shape and positions.  Non-trivial = objective constant != 0, or maximise, or >= 2 "
         "variables whose natural order differs from declaration order."
-        '  Also: re-solves, orientation flipped by re-installing the same objective object, and pairs of different handles with equal derived names (x[:], x[::-1]; A[0,:], A[0,::-1]).')
+        '  Also: re-solves, orientation flipped by re-installing the same objective object, and pairs of different handles with equal derived names (x[:], x[::-1]; A[0,:], A[0,::-1]); the objective replaced by a plain number and solved again (objective_value must be that number).')
 BUDGET = {"quick": {"workers": 16, "examples": 50}, "thorough": {"workers": 16, "examples": 1500}}
 ASSUMPTIONS = ["statuses without values or without an objective value are not constrained"]
 MANIFEST = {
@@ -109,6 +109,20 @@ def check(case):
                         classes.append("handle:matrix-" + tag)
         except Exception as ex:
             return Result.violation(f"handle-raises:{exc_label(ex)}", f"{desc}: {ex!r}", classes)
+        if case.get("edit") == "tighten-lb" and model["constraints"]:
+            # the objective replaced by a plain number (a feasibility problem), either orientation
+            k = [0, 2.5, -3][len(names) % 3]
+            try:
+                (P.maximize if len(desc) % 2 else P.minimize)(k)
+                sol2 = P.solve(method=method)
+            except Exception as ex:
+                classes.append("constant-objective:refused:" + exc_label(ex))
+                sol2 = None
+            if sol2 is not None and sol2.values and sol2.objective_value is not None:
+                classes.append("constant-objective:" + sol2.status.value)
+                if abs(sol2.objective_value - k) > 1e-9:
+                    return Result.violation("objective-value:constant-objective",
+                                            f"objective replaced by the number {k} ({P.sense}), objective_value={sol2.objective_value!r}; {desc}", classes)
     decl = [nm for nm in all_var_names(env) if nm in set(names)]
     nontrivial = model["data"]["c0"] != 0 or model["sense"] == "maximize" or (len(names) >= 2 and decl != names)
     return Result.ok(bool(nontrivial), sorted(set(classes)))
